@@ -137,7 +137,7 @@ func genC15(t *rapid.T) c15Case {
 			s.Maxt = s.Mint + int64(rapid.IntRange(0, 1500).Draw(t, "dellen"))
 		case 9, 10, 11, 12, 13:
 			s.Op = "truncate"
-			if rapid.IntRange(0, 2).Draw(t, "viablock") == 0 {
+			if rapid.IntRange(0, 3).Draw(t, "viablock") == 0 {
 				s.Op = "compacthead"
 			}
 			// truncation times move forward; aim at the newest sample of some series,
@@ -264,7 +264,7 @@ func c15Replay(walDir, scratch string, compress string, minValid int64) (*tsdb.H
 		return nil, nil, nil, err
 	}
 	ho := tsdb.DefaultHeadOptions()
-	ho.ChunkRange = 1000
+	ho.ChunkRange = 20000
 	ho.ChunkDirRoot = scratch
 	ho.StripeSize = 16
 	ho.SamplesPerChunk = 8
@@ -371,12 +371,19 @@ func c15Short(s []string) []string {
 	return s
 }
 
-// c15WriteRenumbered writes the decoded untruncated log into a fresh WAL directory,
-// giving every incarnation of a series ref its own number. After the head has dropped
-// every record of a ref and restarted, the ref number is handed out again for other
-// labels; the concatenation of all segments ever written would then bind old and new
-// entries to the same series. An entry belongs to the series record of its ref that
-// most recently preceded it in the log. It returns the number of reissued refs.
+// c15WriteRenumbered re-encodes the decoded untruncated log (every segment ever written,
+// in order) into a fresh WAL directory in which every incarnation of a label set has
+// exactly one series number. The raw concatenation cannot serve as reference itself:
+//   - after the head has dropped every record of a ref and restarted, the ref number is
+//     handed out again, for other or the same labels;
+//   - which of several refs of one label set is the live one after a restart depends on
+//     which series records survived truncation, so later entries are logged under a ref
+//     that a replay of the raw concatenation would map differently.
+// Attribution rule, written from what the records mean: an entry belongs to the label
+// set named by the series record of its ref that most recently preceded it; a label set
+// is one series from its first series record until a series-deletion marker (full-range
+// tombstone) for one of its refs, after which the next series record starts a new one.
+// It returns the number of re-issued ref numbers seen.
 func c15WriteRenumbered(items []walItem, dir string) (int, error) {
 	wl, err := wlog.NewSize(nil, nil, dir, 32*1024, compression.None)
 	if err != nil {
@@ -384,15 +391,18 @@ func c15WriteRenumbered(items []walItem, dir string) (int, error) {
 	}
 	defer wl.Close()
 	var enc record.Encoder
-	bound := map[uint64]uint64{}
-	lab := map[uint64]string{}
-	epoch := map[uint64]uint64{}
+	refLabel := map[uint64]string{} // ref -> label set of its most recent series record
+	cur := map[string]uint64{}      // label set -> number of its live incarnation (0: none)
+	next := uint64(0)
 	reissued := 0
 	remap := func(ref uint64) chunks.HeadSeriesRef {
-		if b, ok := bound[ref]; ok {
-			return chunks.HeadSeriesRef(b)
+		if k, ok := refLabel[ref]; ok && cur[k] != 0 {
+			return chunks.HeadSeriesRef(cur[k])
 		}
-		return chunks.HeadSeriesRef(ref + 900_000_000) // never bound: stays unknown
+		return chunks.HeadSeriesRef(ref + 900_000_000) // stays unknown
+	}
+	isMarker := func(it walItem) bool {
+		return len(it.Ivs) == 1 && it.Ivs[0].Mint == math.MinInt64 && it.Ivs[0].Maxt == math.MaxInt64
 	}
 	for i := 0; i < len(items); {
 		j := i
@@ -407,15 +417,19 @@ func c15WriteRenumbered(items []walItem, dir string) (int, error) {
 			var out []record.RefSeries
 			for _, it := range group {
 				k := it.L.String()
-				if prev, ok := lab[it.Ref]; ok && prev != k {
-					epoch[it.Ref]++
+				if prev, ok := refLabel[it.Ref]; ok && prev != k {
 					reissued++
 				}
-				lab[it.Ref] = k
-				bound[it.Ref] = it.Ref + epoch[it.Ref]*1_000_000
-				out = append(out, record.RefSeries{Ref: remap(it.Ref), Labels: it.L})
+				refLabel[it.Ref] = k
+				if cur[k] == 0 {
+					next++
+					cur[k] = next
+					out = append(out, record.RefSeries{Ref: chunks.HeadSeriesRef(next), Labels: it.L})
+				}
 			}
-			rec = enc.Series(out, nil)
+			if len(out) > 0 {
+				rec = enc.Series(out, nil)
+			}
 		case "float":
 			var out []record.RefSample
 			for _, it := range group {
@@ -462,6 +476,9 @@ func c15WriteRenumbered(items []walItem, dir string) (int, error) {
 			var out []tombstones.Stone
 			for _, it := range group {
 				out = append(out, tombstones.Stone{Ref: storage.SeriesRef(remap(it.Ref)), Intervals: it.Ivs})
+				if k, ok := refLabel[it.Ref]; ok && isMarker(it) {
+					cur[k] = 0
+				}
 			}
 			rec = enc.Tombstones(out, nil)
 		case "meta":
@@ -495,8 +512,8 @@ func runC15Head(c c15Case, r *ev.Rec) error {
 		o := tsdb.DefaultOptions()
 		o.WALSegmentSize = 32 * 1024
 		o.WALCompression = compression.Type(c.Compress)
-		o.MinBlockDuration = 1000
-		o.MaxBlockDuration = 1000
+		o.MinBlockDuration = 20000
+		o.MaxBlockDuration = 20000
 		o.RetentionDuration = 0
 		o.NoLockfile = true
 		o.StripeSize = 16
@@ -959,7 +976,7 @@ const c15SigDupRefMeta = "head-checkpoint-drops-metadata-logged-under-duplicate-
 
 func TestC15Head(t *testing.T) {
 	ev.Check(t, "C15",
-		"tsdb.DB histories (32 KiB WAL segments, block range 1000, 2-5 colliding series, hot and cold): appender transactions (floats, int/float histograms, staleness markers, exemplars, metadata), rollbacks, Delete, Head.Truncate / DB.CompactHead with increasing truncation times aimed at series' newest samples, CompactStaleHead, CompactSelectedSeries, restarts; all segments are copied aside before every truncation. After each checkpoint and at the end: record-level scan of checkpoint+segments for entries without preceding series record, and differential replay (fresh head on checkpoint+segments vs fresh head on the untruncated log, same minValidTime) of samples, exemplars and a metadata-update probe. Non-trivial: a checkpoint was written after a series had been garbage-collected or evicted; distinct by hash of the case.",
+		"tsdb.DB histories (32 KiB WAL segments, block range 20000, 2-5 colliding series, hot and cold): appender transactions (floats, int/float histograms, staleness markers, exemplars, metadata), rollbacks, Delete, Head.Truncate / DB.CompactHead with increasing truncation times aimed at series' newest samples, CompactStaleHead, CompactSelectedSeries, restarts; all segments are copied aside before every truncation. After each checkpoint and at the end: record-level scan of checkpoint+segments for entries without preceding series record, and differential replay (fresh head on checkpoint+segments vs fresh head on the untruncated log, same minValidTime) of samples, exemplars and a metadata-update probe. Non-trivial: a checkpoint was written after a series had been garbage-collected or evicted; distinct by hash of the case.",
 		genC15, runC15Head, ev.Opts{Part: "head"})
 }
 
